@@ -18,7 +18,9 @@ mod p_c07;
 mod p_c08;
 mod p_c09;
 mod p_c12;
+mod p_c14;
 mod p_c15;
+mod p_c16;
 mod p_c17;
 mod p_c18;
 mod rng;
@@ -40,7 +42,9 @@ fn run_one(prop: &str, ctx: &mut CaseCtx) -> CaseResult {
         "C08" => p_c08::run_case(ctx),
         "C09" => p_c09::run_case(ctx),
         "C12" => p_c12::run_case(ctx),
+        "C14" => p_c14::run_case(ctx),
         "C15" => p_c15::run_case(ctx),
+        "C16" => p_c16::run_case(ctx),
         "C17" => p_c17::run_case(ctx),
         "C18" => p_c18::run_case(ctx),
         _ => {
